@@ -4,8 +4,8 @@ import ast
 from typing import Dict, List, Optional, Set, Tuple
 
 from ..model import Repo, ClassInfo, FunctionInfo, AnalysisError, walk_no_nested, src, is_self_attr, call_name, dotted, \
-    enclosing_stmt, parent, const_str
-from ..core import Ob, Rule, Mutant, mutate_module, find_def, replace_node, inconclusive
+    enclosing_stmt, parent, const_str, ancestors
+from ..core import Ob, Rule, Mutant, mutate_module, find_def, replace_node, inconclusive, text_mutant
 from ..dataflow import Defs
 from ..ratfun import Normalizer, RF, Poly
 from ..astq import flatten, norm, return_exprs
@@ -552,6 +552,31 @@ def rule_roots(repo: Repo) -> List[Ob]:
                           "Poly.intervals(all=True) isolates real and complex roots" if ok else
                           "Poly.intervals without all=True returns only the real roots: complex characteristic roots are silently dropped",
                           witness=src(call)))
+            if ok and isinstance(call.func, ast.Attribute):
+                # documented sympy contract: complex root isolation is implemented for square-free polynomials only;
+                # a root of a square-free factor has multiplicity 1 there, its true multiplicity is the factor's
+                defs = Defs(fn.node, None)
+                rts = defs.roots(call.func.value)
+                sqf = any(r.split(".")[-1] in ("sqf_list", "sqf_part", "sqf_list_include", "factor_list") for r in rts if r.startswith("call:"))
+                obs.append(Ob("F-rootsource", "utils/expressions.py::get_all_roots::intervals-squarefree", fn.relpath, call.lineno, fn.qualname, sqf,
+                              "intervals(all=True) is applied to square-free factors" if sqf else
+                              f"`{src(call.func.value)}`.intervals(all=True) is not applied to a square-free factor: sympy raises NotImplementedError "
+                              "for every characteristic polynomial with a repeated root"))
+                if sqf and any(r.split(".")[-1] in ("sqf_list", "sqf_list_include", "factor_list") for r in rts if r.startswith("call:")):
+                    # the multiplicity recorded with a root must be the factor's, i.e. come from the same iteration target as the receiver
+                    loop = next((a for a in ancestors(call) if isinstance(a, ast.For)), None)
+                    mult_ok = None
+                    if loop is not None and isinstance(loop.target, ast.Tuple) and len(loop.target.elts) == 2 and isinstance(loop.target.elts[1], ast.Name):
+                        mname = loop.target.elts[1].id
+                        appended = [a for x in ast.walk(loop) if isinstance(x, ast.Call) and call_name(x) == "append" for a in x.args if isinstance(a, ast.Tuple) and len(a.elts) == 2]
+                        if appended:
+                            mult_ok = all(mname in {n.id for n in ast.walk(t.elts[1]) if isinstance(n, ast.Name)} for t in appended)
+                    if mult_ok is None:
+                        obs.append(inconclusive("F-rootsource", "utils/expressions.py::get_all_roots::multiplicity", fn.relpath, call.lineno, fn.qualname, "how multiplicities are attached to isolated roots was not recognised"))
+                    else:
+                        obs.append(Ob("F-rootsource", "utils/expressions.py::get_all_roots::multiplicity", fn.relpath, call.lineno, fn.qualname, mult_ok,
+                                      "an isolated root carries the multiplicity of its square-free factor" if mult_ok else
+                                      "an isolated root of a square-free factor is recorded with the multiplicity reported by intervals (always 1) instead of the factor's"))
         elif name == "all_roots":
             n_sources += 1
             obs.append(Ob("F-rootsource", "utils/expressions.py::get_all_roots::all_roots", fn.relpath, call.lineno, fn.qualname, True,
@@ -585,6 +610,15 @@ def mut_roots(repo: Repo) -> List[Mutant]:
     ov = mutate_module(repo, "utils/expressions.py", drop_all)
     if ov:
         out.append(Mutant("intervals-real-only", ov, "fire", "get_all_roots::intervals", control=True))
+
+    m = repo.module("utils/expressions.py")
+    norm_src = ast.unparse(m.tree)
+    if "for (h, l), _ in factor_roots" in norm_src and "(h + l) / 2, multiplicity)" in norm_src:
+        out.append(Mutant("multiplicity-from-intervals", {"utils/expressions.py": norm_src.replace("for (h, l), _ in factor_roots", "for (h, l), m in factor_roots").replace("(h + l) / 2, multiplicity)", "(h + l) / 2, m)")},
+                          "fire", "get_all_roots::multiplicity"))
+    ov = text_mutant(repo, "utils/expressions.py", "factor_roots = factor.intervals(eps=eps, all=True)", "factor_roots = poly.intervals(eps=eps, all=True)")
+    if ov:
+        out.append(Mutant("intervals-on-whole-polynomial", ov, "fire", "get_all_roots::intervals-squarefree"))
 
     def drop_guard(tree):
         fn = find_def(tree, "get_all_roots")
@@ -1071,21 +1105,48 @@ def rule_invariant_inputs(repo: Repo) -> List[Ob]:
                 for a in ast.walk(st):
                     if isinstance(a, ast.Assign) and isinstance(a.targets[0], ast.Subscript) and "closed_forms" in src(a.targets[0].value):
                         n_store += 1
-                        keyexpr = a.targets[0].slice
-                        if isinstance(keyexpr, ast.Name):
-                            for v in Defs(h.node, h.params()[0]).defs.get(keyexpr.id, []):
-                                if isinstance(v, ast.IfExp):
-                                    keyexpr = v.body
-                                elif isinstance(v, ast.expr):
-                                    keyexpr = v
-                        lead = None
-                        if isinstance(keyexpr, ast.JoinedStr) and keyexpr.values and isinstance(keyexpr.values[0], ast.Constant):
-                            lead = str(keyexpr.values[0].value)[:1]
+                        from ..astq import template_of, Lit
+                        hdefs = Defs(h.node, h.params()[0])
+
+                        def leads(e, defs, fn, depth=0) -> List[Optional[str]]:
+                            """first literal character of each alternative the text expression can evaluate to (None: not literal)"""
+                            if depth > 4:
+                                return [None]
+                            if isinstance(e, ast.IfExp):
+                                return leads(e.body, defs, fn, depth + 1) + leads(e.orelse, defs, fn, depth + 1)
+                            if isinstance(e, ast.Name) and e.id in defs.defs and e.id not in defs.params:
+                                out = []
+                                for v in defs.defs[e.id]:
+                                    out += leads(v, defs, fn, depth + 1) if isinstance(v, ast.expr) else [None]
+                                return out
+                            if isinstance(e, ast.Call) and isinstance(e.func, ast.Attribute) and isinstance(e.func.value, ast.Name) and e.func.value.id in ("self", "cls") and fn.cls is not None:
+                                hm = fn.cls.find_method(e.func.attr)
+                                if hm is not None:
+                                    hd = Defs(hm.node, None)
+                                    out = []
+                                    for r in walk_no_nested(hm.node):
+                                        if isinstance(r, ast.Return) and r.value is not None:
+                                            out += leads(r.value, hd, hm, depth + 1)
+                                    return out or [None]
+                            try:
+                                chunks = template_of(e, defs)
+                            except Exception:
+                                return [None]
+                            if chunks and isinstance(chunks[0], Lit) and chunks[0].text:
+                                return [chunks[0].text[:1]]
+                            return [None]
+                        got = leads(a.targets[0].slice, hdefs, h)
                         want = [l for l, k in letter_kind.items() if k == kind]
-                        ok = lead is not None and lead in want
-                        obs.append(Ob("F-invariant-inputs", f"cli/actions/goals_action.py::GoalsAction.handle_all_goals::identifier::{kind}", h.relpath, a.lineno, h.qualname, ok,
-                                      f"a {kind} goal's closed form is stored under an identifier starting with {want} (the goal syntax)" if ok else
-                                      f"a {kind} goal's closed form is stored under `{src(a.targets[0].slice)[:40]}` (leading {lead!r}); the goal syntax for {kind} is {want}: invariants would be printed over the wrong quantity"))
+                        key = f"cli/actions/goals_action.py::GoalsAction.handle_all_goals::identifier::{kind}"
+                        known = [g for g in got if g is not None]
+                        if any(g in want for g in known):
+                            obs.append(Ob("F-invariant-inputs", key, h.relpath, a.lineno, h.qualname, True,
+                                          f"a {kind} goal's closed form is stored under an identifier starting with {want} (the goal syntax)"))
+                        elif any(g in letter_kind for g in known):
+                            obs.append(Ob("F-invariant-inputs", key, h.relpath, a.lineno, h.qualname, False,
+                                          f"a {kind} goal's closed form is stored under `{src(a.targets[0].slice)[:40]}` (leading {known!r}); the goal syntax for {kind} is {want}: invariants would be printed over the wrong quantity"))
+                        else:
+                            obs.append(inconclusive("F-invariant-inputs", key, h.relpath, a.lineno, h.qualname, f"identifier `{src(a.targets[0].slice)[:40]}` of a {kind} goal not readable"))
     if n_store < 3:
         raise AnalysisError("handle_all_goals: closed-form stores not found")
     return obs
